@@ -8,6 +8,7 @@ import Librfn.Driver.Wav
 import Librfn.Driver.Messageq
 import Librfn.Driver.MessageqConc
 import Librfn.Driver.Bintree
+import Librfn.Driver.PT
 
 def main (args : List String) : IO UInt32 :=
   match args with
@@ -21,4 +22,5 @@ def main (args : List String) : IO UInt32 :=
   | "messageq" :: rest => Librfn.Driver.Messageq.main rest
   | "messageq-conc" :: rest => Librfn.Driver.MessageqConc.main rest
   | "bintree" :: rest => Librfn.Driver.Bintree.main rest
+  | "pt" :: rest => Librfn.Driver.PT.main rest
   | _ => do IO.eprintln "usage: librfn_model <engine> [args]"; return 2
